@@ -11127,6 +11127,15 @@ impl SctpTransport {
 
 #[cfg(rustrtc_verif)]
 impl SctpTransport {
+    /// H2: put an idle transport into an association state, so that functions that depend on it
+    /// (`send_data` refuses user data before the association is established) can be run alone.
+    pub fn verif_set_state(&self, state: SctpState) {
+        *self.inner.state.lock() = state;
+    }
+}
+
+#[cfg(rustrtc_verif)]
+impl SctpTransport {
     /// H2: the PR-SCTP sender bookkeeping as a function. Loads `sent` (records whose TSN is in
     /// `expired` get a lifetime that has already run out), the advanced peer ack point and the
     /// peer's cumulative ack, runs `update_advanced_peer_ack_point` and returns
